@@ -227,11 +227,11 @@ Lemma fill_gaps_expand : forall recs lo s e v,
     /\ length vs = S (length ss')
     /\ increasing_from s (ss' ++ [last_stop ((s, e, v) :: recs)]) = true
     /\ forall tailE tailV,
-         expand_from s (ss' ++ [last_stop ((s, e, v) :: recs)] ++ tailE) (vs ++ tailV)
+         expand_from s (ss' ++ last_stop ((s, e, v) :: recs) :: tailE) (vs ++ tailV)
          = tabulate (cover_at vzero ((s, e, v) :: recs)) s (last_stop ((s, e, v) :: recs) - s)
            ++ expand_from (last_stop ((s, e, v) :: recs)) tailE tailV.
 Proof.
-  unfold rec1. induction recs as [|[[s2 e2] v2] rest IH]; intros lo s e v H.
+  induction recs as [|[[s2 e2] v2] rest IH]; intros lo s e v H.
   - apply sorted_disjoint_cons in H. destruct H as (H1 & H2 & _).
     exists [], [v]. unfold last_stop. cbn [last fill_gaps app length]. repeat split.
     + cbn [increasing_from]. rewrite andb_true_r. apply Z.ltb_lt. assumption.
@@ -275,3 +275,941 @@ Proof.
         -- f_equal. replace (s + (e - s) + (s2 - e)) with s2 by lia. apply tabulate_ext. intros p Hp.
            symmetry. apply cover_at_skip. lia.
 Qed.
+
+Lemma all_le_last size recs : all_le size recs = true -> recs <> [] -> last_stop recs <= size.
+Proof.
+  induction recs as [|[[s e] v] rest IH]; intros H Hne; [congruence|].
+  cbn [all_le] in H. apply andb_prop in H. destruct H as [H1 H2]. apply Z.leb_le in H1.
+  destruct rest as [|r2 rest'].
+  - unfold last_stop. simpl. assumption.
+  - rewrite last_stop_cons. apply IH; [assumption|discriminate].
+Qed.
+Lemma mk_rle_wf ev vs : wf_rle (ev, vs) = true -> mk_rle ev vs = Some (ev, vs).
+Proof. intros H. unfold mk_rle. rewrite H. reflexivity. Qed.
+Lemma expand_from_single p e v : expand_from p [e] [v] = repeat v (Z.to_nat (e - p)).
+Proof. cbn [expand_from]. apply app_nil_r. Qed.
+
+(* the dense array splits into: before the first record, the record part, after the last record *)
+Lemma dense_split s e v rest size :
+  sorted_disjoint 0 ((s, e, v) :: rest) = true -> last_stop ((s, e, v) :: rest) <= size ->
+  dense_of vzero ((s, e, v) :: rest) size
+  = repeat vzero (Z.to_nat s)
+    ++ tabulate (cover_at vzero ((s, e, v) :: rest)) s (last_stop ((s, e, v) :: rest) - s)
+    ++ repeat vzero (Z.to_nat (size - last_stop ((s, e, v) :: rest))).
+Proof.
+  intros Hs HL. pose proof (sorted_disjoint_cons _ _ _ _ _ Hs) as (H1 & H2 & H3).
+  pose proof (sorted_last_stop 0 _ Hs ltac:(discriminate)) as HL0.
+  assert (Hs' : sorted_disjoint s ((s, e, v) :: rest) = true).
+  { cbn [sorted_disjoint]. rewrite H3, andb_true_r. apply andb_true_intro. split; [apply Z.leb_le|apply Z.ltb_lt]; lia. }
+  pose proof (sorted_last_stop s _ Hs' ltac:(discriminate)) as HL1.
+  set (L := last_stop ((s, e, v) :: rest)) in *.
+  unfold dense_of. replace size with (s + ((L - s) + (size - L))) at 1 by lia.
+  rewrite tabulate_app by lia. rewrite tabulate_app by lia. rewrite Z.add_0_l.
+  replace (s + (L - s)) with L by lia.
+  assert (A : tabulate (cover_at vzero ((s, e, v) :: rest)) 0 s = repeat vzero (Z.to_nat s)).
+  { apply tabulate_const. intros p Hp. apply (cover_at_before vzero s); [assumption|lia]. }
+  assert (C : tabulate (cover_at vzero ((s, e, v) :: rest)) L (size - L) = repeat vzero (Z.to_nat (size - L))).
+  { apply tabulate_const. intros p Hp.
+    apply (cover_at_after vzero 0); [assumption|fold L; lia|discriminate]. }
+  rewrite A, C. reflexivity.
+Qed.
+
+Theorem from_bedgraph_dense : forall ak k recs size,
+  recs <> [] -> sorted_disjoint 0 recs = true -> all_le size recs = true ->
+  exists r, from_bedgraph_gen ak k recs size
+            = Some ((if size =? last_stop recs then k else ak k), r)
+    /\ wf_rle r = true /\ rle_len r = size /\ expand r = dense_of vzero recs size.
+Proof.
+  intros ak k recs size Hne Hs Hle.
+  pose proof (all_le_last size recs Hle Hne) as HL.
+  destruct recs as [|[[s e] v] rest]; [congruence|]. clear Hne.
+  destruct (fill_gaps_expand rest 0 s e v Hs) as (ss' & vs & Efill & Elen & Einc & Eexp).
+  pose proof (sorted_disjoint_cons _ _ _ _ _ Hs) as (H1 & H2 & H3).
+  rewrite (dense_split s e v rest size Hs HL).
+  unfold from_bedgraph_gen. rewrite Efill.
+  remember (last_stop ((s, e, v) :: rest)) as L eqn:EL.
+  assert (HsL : s < L).
+  { pose proof (increasing_last s _ Einc) as [_ X]. specialize (X ltac:(destruct ss'; discriminate)).
+    rewrite last_last in X. exact X. }
+  replace (size <? L) with false by (symmetry; apply Z.ltb_ge; lia).
+  destruct (Z.eqb_spec size L) as [E|E].
+  - (* last record ends at size *)
+    cbn [app]. destruct (Z.eqb_spec s 0) as [E0|E0].
+    + subst s. eexists. split; [rewrite mk_rle_wf; [reflexivity|]|repeat split].
+      * unfold wf_rle. cbn [fst snd]. rewrite Z.eqb_refl, Einc. cbn [andb].
+        apply Z.eqb_eq. unfold len. rewrite app_length. simpl length. lia.
+      * unfold wf_rle. cbn [fst snd]. rewrite Z.eqb_refl, Einc. cbn [andb].
+        apply Z.eqb_eq. unfold len. rewrite app_length. simpl length. lia.
+      * unfold rle_len. cbn [fst]. rewrite last_cons, last_last. congruence.
+      * unfold expand. cbn [fst snd]. specialize (Eexp [] []). rewrite app_nil_r in Eexp. rewrite Eexp.
+        cbn [expand_from]. replace (Z.to_nat 0) with O by reflexivity. replace (Z.to_nat (size - L)) with O by lia.
+        reflexivity.
+    + eexists. split; [rewrite mk_rle_wf; [reflexivity|]|repeat split].
+      * unfold wf_rle. cbn [fst snd increasing_from]. rewrite Z.eqb_refl, Einc. cbn [andb]. rewrite andb_true_r.
+        apply andb_true_intro. split; [apply Z.ltb_lt; lia|].
+        apply Z.eqb_eq. unfold len. simpl length. rewrite app_length. simpl length. lia.
+      * unfold wf_rle. cbn [fst snd increasing_from]. rewrite Z.eqb_refl, Einc. cbn [andb]. rewrite andb_true_r.
+        apply andb_true_intro. split; [apply Z.ltb_lt; lia|].
+        apply Z.eqb_eq. unfold len. simpl length. rewrite app_length. simpl length. lia.
+      * unfold rle_len. cbn [fst]. rewrite !last_cons, last_last. congruence.
+      * unfold expand. cbn [fst snd expand_from]. specialize (Eexp [] []). rewrite app_nil_r in Eexp. rewrite Eexp.
+        cbn [expand_from]. replace (s - 0) with s by lia. replace (Z.to_nat (size - L)) with O by lia. reflexivity.
+  - (* trailing zero run up to size *)
+    assert (Hinc2 : increasing_from s (ss' ++ [L; size]) = true).
+    { change [L; size] with ([L] ++ [size]). rewrite app_assoc, increasing_from_app, Einc, last_last.
+      cbn [increasing_from andb]. rewrite andb_true_r. apply Z.ltb_lt. lia. }
+    cbn [app]. destruct (Z.eqb_spec s 0) as [E0|E0].
+    + subst s. eexists. split; [rewrite mk_rle_wf; [reflexivity|]|repeat split].
+      * unfold wf_rle. cbn [fst snd]. rewrite Z.eqb_refl, Hinc2. cbn [andb].
+        apply Z.eqb_eq. unfold len. rewrite !app_length. simpl length. lia.
+      * unfold wf_rle. cbn [fst snd]. rewrite Z.eqb_refl, Hinc2. cbn [andb].
+        apply Z.eqb_eq. unfold len. rewrite !app_length. simpl length. lia.
+      * unfold rle_len. cbn [fst]. rewrite last_cons. change [L; size] with ([L] ++ [size]).
+        rewrite app_assoc, last_last. reflexivity.
+      * unfold expand. cbn [fst snd]. rewrite (Eexp [size] [vzero]). rewrite expand_from_single.
+        replace (Z.to_nat 0) with O by reflexivity. reflexivity.
+    + eexists. split; [rewrite mk_rle_wf; [reflexivity|]|repeat split].
+      * unfold wf_rle. cbn [fst snd increasing_from]. rewrite Z.eqb_refl, Hinc2. cbn [andb]. rewrite andb_true_r.
+        apply andb_true_intro. split; [apply Z.ltb_lt; lia|].
+        apply Z.eqb_eq. unfold len. simpl length. rewrite !app_length. simpl length. lia.
+      * unfold wf_rle. cbn [fst snd increasing_from]. rewrite Z.eqb_refl, Hinc2. cbn [andb]. rewrite andb_true_r.
+        apply andb_true_intro. split; [apply Z.ltb_lt; lia|].
+        apply Z.eqb_eq. unfold len. simpl length. rewrite !app_length. simpl length. lia.
+      * unfold rle_len. cbn [fst]. rewrite !last_cons. change [L; size] with ([L] ++ [size]).
+        rewrite app_assoc, last_last. reflexivity.
+      * unfold expand. cbn [fst snd expand_from]. rewrite (Eexp [size] [vzero]). rewrite expand_from_single.
+        replace (s - 0) with s by lia. reflexivity.
+Qed.
+
+Theorem from_bedgraph_empty : forall ak k size, 0 < size ->
+  exists r, from_bedgraph_gen ak k [] size = Some (KI, r)
+    /\ wf_rle r = true /\ rle_len r = size /\ expand r = dense_of vzero [] size.
+Proof.
+  intros ak k size H. exists ([0; size], [vzero]).
+  assert (W : wf_rle ([0; size], [vzero]) = true).
+  { unfold wf_rle. cbn [fst snd increasing_from]. rewrite Z.eqb_refl. cbn [andb]. rewrite andb_true_r.
+    apply andb_true_intro. split; [apply Z.ltb_lt; lia|reflexivity]. }
+  repeat split.
+  - unfold from_bedgraph_gen, mk_rle. rewrite W. reflexivity.
+  - exact W.
+  - unfold expand. cbn [fst snd]. rewrite expand_from_single. unfold dense_of.
+    symmetry. replace (size - 0) with size by lia. apply tabulate_const. intros p Hp. reflexivity.
+Qed.
+
+(* ====================================================================================== *)
+(* run lists                                                                               *)
+(* ====================================================================================== *)
+Definition inc (pos : Z) (rs : list (Z * (Z * Z))) : bool := increasing_from pos (map fst rs).
+Definition last_end (pos : Z) (rs : list (Z * (Z * Z))) : Z := last (map fst rs) pos.
+
+Lemma inc_cons pos e v rs : inc pos ((e, v) :: rs) = true <-> pos < e /\ inc e rs = true.
+Proof.
+  unfold inc. cbn [map fst increasing_from]. rewrite andb_true_iff, Z.ltb_lt. tauto.
+Qed.
+Lemma last_end_cons pos e v rs : last_end pos ((e, v) :: rs) = last_end e rs.
+Proof. unfold last_end. cbn [map fst]. apply last_cons. Qed.
+Lemma inc_last_end pos rs : inc pos rs = true -> pos <= last_end pos rs /\ (rs <> [] -> pos < last_end pos rs).
+Proof.
+  intros H. pose proof (increasing_last pos (map fst rs) H) as [A B]. split; [exact A|].
+  intros Hne. apply B. destruct rs; [congruence|discriminate].
+Qed.
+Lemma expand_from_combine pos ev vs : expand_from pos ev vs = expand_runs pos (combine ev vs).
+Proof.
+  revert pos vs. induction ev as [|e ev IH]; intros pos vs; [reflexivity|].
+  destruct vs as [|v vs]; [reflexivity|]. cbn [expand_from combine expand_runs]. f_equal. apply IH.
+Qed.
+Lemma expand_runs_of r : expand r = match fst r with [] => [] | e0 :: _ => expand_runs e0 (runs_of r) end.
+Proof. unfold expand, runs_of. destruct (fst r) as [|e0 rest]; [reflexivity|]. apply expand_from_combine. Qed.
+Lemma expand_of_runs rs : expand (of_runs rs) = expand_runs 0 rs.
+Proof.
+  unfold expand, of_runs. cbn [fst snd]. rewrite expand_from_combine.
+  f_equal. induction rs as [|[e v] rs IH]; [reflexivity|]. cbn [map fst snd combine]. f_equal. exact IH.
+Qed.
+Lemma expand_runs_length pos rs : inc pos rs = true -> len (expand_runs pos rs) = last_end pos rs - pos.
+Proof.
+  revert pos. induction rs as [|[e v] rs IH]; intros pos H.
+  - unfold last_end, len. simpl. lia.
+  - apply inc_cons in H. destruct H as [H1 H2]. cbn [expand_runs]. rewrite len_app, (IH e H2), last_end_cons.
+    unfold len. rewrite repeat_length. lia.
+Qed.
+
+(* a well-formed rle as a run list *)
+Lemma wf_runs r : wf_rle r = true ->
+  inc 0 (runs_of r) = true /\ last_end 0 (runs_of r) = rle_len r /\ expand r = expand_runs 0 (runs_of r)
+  /\ length (runs_of r) = length (snd r).
+Proof.
+  destruct r as [ev vs]. unfold wf_rle. cbn [fst snd]. destruct ev as [|e0 rest]; [discriminate|].
+  intros H. apply andb_prop in H. destruct H as [H Hlen]. apply andb_prop in H. destruct H as [H0 Hinc].
+  apply Z.eqb_eq in H0. subst e0. apply Z.eqb_eq in Hlen. unfold len in Hlen. apply Nat2Z.inj in Hlen.
+  assert (E : map fst (combine rest vs) = rest).
+  { clear Hinc. revert vs Hlen. induction rest as [|x rest IH]; intros [|v vs] Hl; simpl in *; try discriminate; [reflexivity|].
+    f_equal. apply IH. lia. }
+  unfold inc, last_end, runs_of, rle_len. cbn [fst snd tl]. rewrite E. repeat split.
+  - exact Hinc.
+  - rewrite last_cons. reflexivity.
+  - rewrite expand_runs_of. reflexivity.
+  - rewrite combine_length. lia.
+Qed.
+Lemma wf_of_runs rs : inc 0 rs = true -> wf_rle (of_runs rs) = true.
+Proof.
+  intros H. unfold wf_rle, of_runs. cbn [fst snd]. rewrite Z.eqb_refl. unfold inc in H. rewrite H. cbn [andb].
+  apply Z.eqb_eq. unfold len. rewrite !map_length. reflexivity.
+Qed.
+Lemma rle_len_of_runs rs : rle_len (of_runs rs) = last_end 0 rs.
+Proof. unfold rle_len, of_runs, last_end. cbn [fst]. apply last_cons. Qed.
+Lemma expand_length r : wf_rle r = true -> len (expand r) = rle_len r.
+Proof.
+  intros H. destruct (wf_runs r H) as (A & B & C & _). rewrite C, expand_runs_length by assumption. lia.
+Qed.
+
+(* ====================================================================================== *)
+(* T5: ufuncs on the abstract run-list model are pointwise                                  *)
+(* ====================================================================================== *)
+Lemma zip_runs_spec : forall fuel f a b pos,
+  inc pos a = true -> inc pos b = true -> last_end pos a = last_end pos b ->
+  (length a + length b <= fuel)%nat ->
+  inc pos (zip_runs fuel f a b) = true
+  /\ last_end pos (zip_runs fuel f a b) = last_end pos a
+  /\ expand_runs pos (zip_runs fuel f a b) = map2 f (expand_runs pos a) (expand_runs pos b).
+Proof.
+  induction fuel as [|fuel IH]; intros f a b pos Ha Hb Hl Hf.
+  - destruct a; [|simpl in Hf; lia]. destruct b; [|simpl in Hf; lia]. repeat split.
+  - destruct a as [|[ea va] a'].
+    { destruct b as [|[eb vb] b']; [repeat split|].
+      exfalso. pose proof (inc_last_end pos _ Hb) as [_ X]. specialize (X ltac:(discriminate)).
+      rewrite <- Hl in X. unfold last_end in X. simpl in X. lia. }
+    destruct b as [|[eb vb] b'].
+    { exfalso. pose proof (inc_last_end pos _ Ha) as [_ X]. specialize (X ltac:(discriminate)).
+      rewrite Hl in X. unfold last_end in X. simpl in X. lia. }
+    pose proof Ha as Ha0. pose proof Hb as Hb0.
+    apply inc_cons in Ha. destruct Ha as [Ha1 Ha2]. apply inc_cons in Hb. destruct Hb as [Hb1 Hb2].
+    rewrite !last_end_cons in Hl.
+    cbn [zip_runs]. simpl length in Hf.
+    destruct (Z.ltb_spec ea eb) as [L1|L1]; [|destruct (Z.ltb_spec eb ea) as [L2|L2]].
+    + (* a's run ends first *)
+      assert (Hb' : inc ea ((eb, vb) :: b') = true) by (apply inc_cons; split; [lia|assumption]).
+      assert (Hl' : last_end ea a' = last_end ea ((eb, vb) :: b')) by (rewrite last_end_cons; exact Hl).
+      destruct (IH f a' ((eb, vb) :: b') ea Ha2 Hb' Hl' ltac:(simpl; lia)) as (I1 & I2 & I3).
+      repeat split.
+      * apply inc_cons. split; assumption.
+      * rewrite !last_end_cons. exact I2.
+      * cbn [expand_runs]. rewrite I3. cbn [expand_runs].
+        replace (eb - pos) with ((ea - pos) + (eb - ea)) by lia.
+        rewrite repeat_app_Z by lia. rewrite <- app_assoc.
+        rewrite map2_app by (rewrite !repeat_length; reflexivity). rewrite map2_repeat. reflexivity.
+    + (* b's run ends first *)
+      assert (Ha' : inc eb ((ea, va) :: a') = true) by (apply inc_cons; split; [lia|assumption]).
+      assert (Hl' : last_end eb ((ea, va) :: a') = last_end eb b') by (rewrite last_end_cons; exact Hl).
+      destruct (IH f ((ea, va) :: a') b' eb Ha' Hb2 Hl' ltac:(simpl; lia)) as (I1 & I2 & I3).
+      repeat split.
+      * apply inc_cons. split; assumption.
+      * rewrite !last_end_cons. rewrite I2. rewrite last_end_cons. reflexivity.
+      * cbn [expand_runs]. rewrite I3. cbn [expand_runs].
+        replace (ea - pos) with ((eb - pos) + (ea - eb)) by lia.
+        rewrite repeat_app_Z by lia. rewrite <- app_assoc.
+        rewrite map2_app by (rewrite !repeat_length; reflexivity). rewrite map2_repeat. reflexivity.
+    + (* both end here *)
+      assert (ea = eb) by lia. subst eb.
+      destruct (IH f a' b' ea Ha2 Hb2 Hl ltac:(lia)) as (I1 & I2 & I3).
+      repeat split.
+      * apply inc_cons. split; assumption.
+      * rewrite !last_end_cons. exact I2.
+      * cbn [expand_runs]. rewrite I3.
+        rewrite map2_app by (rewrite !repeat_length; reflexivity). rewrite map2_repeat. reflexivity.
+Qed.
+
+Lemma veqb_eq a b : veqb a b = true -> a = b.
+Proof.
+  destruct a, b. unfold veqb. cbn [fst snd]. intros H. apply andb_prop in H. destruct H as [H1 H2].
+  apply Z.eqb_eq in H1. apply Z.eqb_eq in H2. congruence.
+Qed.
+
+Lemma join_runs_spec : forall rs pos, inc pos rs = true ->
+  inc pos (join_runs rs) = true /\ last_end pos (join_runs rs) = last_end pos rs
+  /\ expand_runs pos (join_runs rs) = expand_runs pos rs.
+Proof.
+  induction rs as [|[e v] rs IH]; intros pos H; [repeat split|].
+  apply inc_cons in H. destruct H as [H1 H2]. destruct (IH e H2) as (I1 & I2 & I3).
+  cbn [join_runs fold_right]. fold (join_runs rs). unfold join_cons. cbn [snd].
+  destruct (join_runs rs) as [|[e2 v2] acc'] eqn:EJ.
+  - repeat split.
+    + apply inc_cons. split; [assumption|reflexivity].
+    + rewrite !last_end_cons. exact I2.
+    + cbn [expand_runs]. cbn [expand_runs] in I3. rewrite <- I3. reflexivity.
+  - apply inc_cons in I1. destruct I1 as [J1 J2].
+    destruct (veqb v v2) eqn:EV.
+    + apply veqb_eq in EV. subst v2. repeat split.
+      * apply inc_cons. split; [lia|assumption].
+      * rewrite !last_end_cons. rewrite last_end_cons in I2. exact I2.
+      * cbn [expand_runs]. rewrite <- I3. cbn [expand_runs]. rewrite app_assoc. f_equal.
+        replace (e2 - pos) with ((e - pos) + (e2 - e)) by lia. apply repeat_app_Z; lia.
+    + repeat split.
+      * apply inc_cons. split; [assumption|]. apply inc_cons. split; assumption.
+      * rewrite !last_end_cons. rewrite last_end_cons in I2. exact I2.
+      * cbn [expand_runs]. rewrite <- I3. reflexivity.
+Qed.
+
+Theorem rle_zip_pointwise : forall f a b,
+  wf_rle a = true -> wf_rle b = true -> rle_len a = rle_len b ->
+  exists r, rle_zip f a b = Some r /\ wf_rle r = true /\ rle_len r = rle_len a
+            /\ expand r = map2 f (expand a) (expand b).
+Proof.
+  intros f a b Wa Wb Hl.
+  destruct (wf_runs a Wa) as (A1 & A2 & A3 & A4). destruct (wf_runs b Wb) as (B1 & B2 & B3 & B4).
+  unfold rle_zip. rewrite Hl, Z.eqb_refl. eexists. split; [reflexivity|].
+  destruct (zip_runs_spec (length (snd a) + length (snd b)) f (runs_of a) (runs_of b) 0 A1 B1 ltac:(congruence) ltac:(lia))
+    as (Z1 & Z2 & Z3).
+  destruct (join_runs_spec _ 0 Z1) as (J1 & J2 & J3).
+  repeat split.
+  - apply wf_of_runs. exact J1.
+  - rewrite rle_len_of_runs, J2, Z2. congruence.
+  - rewrite expand_of_runs, J3, Z3, A3, B3. reflexivity.
+Qed.
+
+Theorem rle_map_pointwise : forall f a, wf_rle a = true ->
+  wf_rle (rle_map f a) = true /\ rle_len (rle_map f a) = rle_len a /\ expand (rle_map f a) = map f (expand a).
+Proof.
+  intros f [ev vs] W. unfold rle_map. cbn [fst snd]. repeat split.
+  - unfold wf_rle in *. cbn [fst snd] in *. destruct ev; [discriminate|].
+    unfold len in *. rewrite map_length. exact W.
+  - unfold expand. cbn [fst snd]. destruct ev as [|e0 rest]; [reflexivity|].
+    clear W. revert e0 vs. induction rest as [|e rest IH]; intros e0 vs; [reflexivity|].
+    destruct vs as [|v vs]; [reflexivity|]. cbn [map expand_from]. rewrite map_app, map_repeat. f_equal. apply IH.
+Qed.
+
+(* whole expression trees: the run-length evaluation is the dense evaluation *)
+Definition dense_leaf (l : kind * (list Z * list (Z * Z))) : kind * list (Z * Z) := (fst l, expand (snd l)).
+Theorem eval_pointwise : forall n leaves e k r,
+  (forall l, In l leaves -> wf_rle (snd l) = true /\ rle_len (snd l) = n) ->
+  model_eval leaves e = Some (k, r) ->
+  wf_rle r = true /\ rle_len r = n /\ spec_eval (map dense_leaf leaves) e = Some (k, expand r).
+Proof.
+  intros n leaves e. induction e as [i|op l IHl r0 IHr|op l IHl ks s|op ks s r0 IHr|e1 IH1]; intros k r Hwf H;
+    unfold model_eval, spec_eval in *; cbn [eval] in *.
+  - pose proof (nth_error_In _ _ H) as Hin. destruct (Hwf _ Hin) as [W L]. cbn [snd] in *.
+    repeat split; try assumption.
+    rewrite nth_error_map, H. reflexivity.
+  - destruct (eval rle_map rle_zip leaves l) as [[ka a]|] eqn:El; [|discriminate].
+    destruct (eval rle_map rle_zip leaves r0) as [[kb b]|] eqn:Er; [|discriminate].
+    destruct (IHl ka a Hwf eq_refl) as (Wa & La & Sa). destruct (IHr kb b Hwf eq_refl) as (Wb & Lb & Sb).
+    rewrite Sa, Sb.
+    destruct (bin_kind op ka kb) as [k0|]; [|discriminate].
+    destruct (rle_zip_pointwise (bin_val op ka kb) a b Wa Wb ltac:(congruence)) as (c & Ez & Wc & Lc & Ec).
+    rewrite Ez in H. inversion H. subst k0 c. repeat split; [assumption|congruence|].
+    unfold dense_zip. rewrite !expand_length by assumption. rewrite La, Lb, Z.eqb_refl, Ec. reflexivity.
+  - destruct (eval rle_map rle_zip leaves l) as [[ka a]|] eqn:El; [|discriminate].
+    destruct (IHl ka a Hwf eq_refl) as (Wa & La & Sa). rewrite Sa.
+    destruct (bin_kind op ka ks) as [k0|]; [|discriminate]. inversion H. subst k0 r.
+    destruct (rle_map_pointwise (fun x => bin_val op ka ks x s) a Wa) as (W & L & E).
+    repeat split; [assumption|congruence|]. rewrite E. reflexivity.
+  - destruct (eval rle_map rle_zip leaves r0) as [[kb b]|] eqn:Er; [|discriminate].
+    destruct (IHr kb b Hwf eq_refl) as (Wb & Lb & Sb). rewrite Sb.
+    destruct (bin_kind op ks kb) as [k0|]; [|discriminate]. inversion H. subst k0 r.
+    destruct (rle_map_pointwise (fun x => bin_val op ks kb s x) b Wb) as (W & L & E).
+    repeat split; [assumption|congruence|]. rewrite E. reflexivity.
+  - destruct (eval rle_map rle_zip leaves e1) as [[ka a]|] eqn:El; [|discriminate].
+    destruct (IH1 ka a Hwf eq_refl) as (Wa & La & Sa). rewrite Sa.
+    destruct (not_kind ka) as [k0|]; [|discriminate]. inversion H. subst k0 r.
+    destruct (rle_map_pointwise (not_val ka) a Wa) as (W & L & E).
+    repeat split; [assumption|congruence|]. rewrite E. reflexivity.
+Qed.
+
+(* ====================================================================================== *)
+(* reductions                                                                              *)
+(* ====================================================================================== *)
+Lemma filter_repeat {A} (p : A -> bool) v n : filter p (repeat v n) = if p v then repeat v n else [].
+Proof. induction n as [|n IH]; simpl; [destruct (p v); reflexivity|]. rewrite IH. destruct (p v); reflexivity. Qed.
+Lemma runs_weight_spec bn : forall rs pos, inc pos rs = true ->
+  runs_weight pos bn rs = len (filter (fun v => in_bin v bn) (expand_runs pos rs)).
+Proof.
+  induction rs as [|[e v] rs IH]; intros pos H; [reflexivity|].
+  apply inc_cons in H. destruct H as [H1 H2]. cbn [runs_weight expand_runs].
+  rewrite filter_app, len_app, (IH e H2), filter_repeat.
+  destruct (in_bin v bn); unfold len; [rewrite repeat_length|simpl]; lia.
+Qed.
+Theorem hist_weighted : forall edges r, wf_rle r = true -> model_hist edges r = spec_hist edges (expand r).
+Proof.
+  intros edges r W. destruct (wf_runs r W) as (A1 & _ & A3 & _). unfold model_hist, spec_hist. rewrite A3.
+  apply map_ext. intros bn. apply runs_weight_spec. exact A1.
+Qed.
+
+Lemma vadd_int a b : vadd (a, 0) (b, 0) = (a + b, 0).
+Proof. unfold vadd, valign, vnorm. cbn [fst snd]. simpl. rewrite !Z.mul_1_r. reflexivity. Qed.
+Lemma vscale_int n a : vscale n (a, 0) = (n * a, 0).
+Proof. reflexivity. Qed.
+Lemma vsum_repeat_int a t : forall (n : nat) l, vsum l = (t, 0) -> vsum (repeat (a, 0) n ++ l) = (Z.of_nat n * a + t, 0).
+Proof.
+  induction n as [|n IH]; intros l Hl; [simpl; rewrite Hl; reflexivity|].
+  cbn [repeat app]. change (vsum ((a, 0) :: repeat (a, 0) n ++ l)) with (vadd (a, 0) (vsum (repeat (a, 0) n ++ l))).
+  rewrite (IH l Hl), vadd_int. f_equal. lia.
+Qed.
+Lemma runs_sum_int : forall rs pos, inc pos rs = true -> (forall e v, In (e, v) rs -> snd v = 0) ->
+  runs_sum pos rs = vsum (expand_runs pos rs) /\ snd (runs_sum pos rs) = 0.
+Proof.
+  induction rs as [|[e [a x]] rs IH]; intros pos H Hint; [split; reflexivity|].
+  apply inc_cons in H. destruct H as [H1 H2].
+  assert (x = 0) by (apply (Hint e (a, x)); left; reflexivity). subst x.
+  destruct (IH e H2) as [I1 I2]; [intros e' v' Hin; apply (Hint e'); right; exact Hin|].
+  cbn [runs_sum expand_runs]. destruct (runs_sum e rs) as [t y] eqn:ER. cbn [snd] in I2. subst y.
+  rewrite vscale_int, vadd_int. rewrite (vsum_repeat_int a t) by (symmetry; exact I1).
+  split; [f_equal; lia|reflexivity].
+Qed.
+Lemma In_runs_of e v r : In (e, v) (runs_of r) -> In v (snd r).
+Proof. unfold runs_of. intros H. apply in_combine_r in H. exact H. Qed.
+(* np.sum on a bool / int64 track: sum(diff(events) * values) = sum of the dense array *)
+Theorem sum_int_partial : forall r, wf_rle r = true -> (forall v, In v (snd r) -> snd v = 0) ->
+  model_sum r = vsum (expand r).
+Proof.
+  intros r W Hint. destruct (wf_runs r W) as (A1 & _ & A3 & _). unfold model_sum. rewrite A3.
+  apply runs_sum_int; [exact A1|]. intros e v Hin. apply Hint. apply (In_runs_of e). exact Hin.
+Qed.
+
+(* ====================================================================================== *)
+(* T4: slicing a chromosome out of the genome-wide array                                    *)
+(* ====================================================================================== *)
+Lemma skipn_repeat {A} (v : A) n k : skipn k (repeat v n) = repeat v (n - k).
+Proof.
+  revert k. induction n as [|n IH]; intros k; [destruct k; reflexivity|].
+  destruct k; [reflexivity|]. simpl. apply IH.
+Qed.
+Lemma firstn_repeat {A} (v : A) n k : firstn k (repeat v n) = repeat v (Nat.min k n).
+Proof.
+  revert k. induction n as [|n IH]; intros k; [destruct k; reflexivity|].
+  destruct k; [reflexivity|]. simpl. f_equal. apply IH.
+Qed.
+Lemma drop_runs_spec a : forall rs pos, inc pos rs = true -> pos <= a -> a < last_end pos rs ->
+  inc a (drop_runs a rs) = true /\ last_end a (drop_runs a rs) = last_end pos rs
+  /\ expand_runs a (drop_runs a rs) = skipn (Z.to_nat (a - pos)) (expand_runs pos rs).
+Proof.
+  induction rs as [|[e v] rs IH]; intros pos H Hp Ha.
+  - unfold last_end in Ha. simpl in Ha. lia.
+  - pose proof H as H0. apply inc_cons in H. destruct H as [H1 H2]. rewrite last_end_cons in Ha.
+    cbn [drop_runs]. destruct (Z.leb_spec e a) as [L|L].
+    + destruct (IH e H2 L Ha) as (I1 & I2 & I3). repeat split; [exact I1|rewrite last_end_cons; exact I2|].
+      rewrite I3. cbn [expand_runs]. rewrite skipn_app, repeat_length.
+      rewrite (skipn_all2 (repeat v (Z.to_nat (e - pos)))) by (rewrite repeat_length; lia). cbn [app]. f_equal. lia.
+    + repeat split.
+      * apply inc_cons. split; [lia|exact H2].
+      * rewrite !last_end_cons. reflexivity.
+      * cbn [expand_runs]. rewrite skipn_app, repeat_length, skipn_repeat.
+        replace (Z.to_nat (a - pos) - Z.to_nat (e - pos))%nat with O by lia. cbn [skipn]. f_equal. f_equal. lia.
+Qed.
+Lemma take_runs_spec b : forall rs pos, inc pos rs = true -> pos < b -> b <= last_end pos rs ->
+  inc pos (take_runs b rs) = true /\ last_end pos (take_runs b rs) = b
+  /\ expand_runs pos (take_runs b rs) = firstn (Z.to_nat (b - pos)) (expand_runs pos rs).
+Proof.
+  induction rs as [|[e v] rs IH]; intros pos H Hp Hb.
+  - unfold last_end in Hb. simpl in Hb. lia.
+  - apply inc_cons in H. destruct H as [H1 H2]. rewrite last_end_cons in Hb.
+    cbn [take_runs]. destruct (Z.ltb_spec e b) as [L|L].
+    + destruct (IH e H2 L Hb) as (I1 & I2 & I3). repeat split.
+      * apply inc_cons. split; assumption.
+      * rewrite last_end_cons. exact I2.
+      * cbn [expand_runs]. rewrite I3, firstn_app, repeat_length, firstn_repeat.
+        replace (Nat.min (Z.to_nat (b - pos)) (Z.to_nat (e - pos))) with (Z.to_nat (e - pos)) by lia.
+        f_equal. f_equal. lia.
+    + repeat split.
+      * apply inc_cons. split; [assumption|reflexivity].
+      * cbn [expand_runs]. rewrite app_nil_r, firstn_app, repeat_length, firstn_repeat.
+        replace (Z.to_nat (b - pos) - Z.to_nat (e - pos))%nat with O by lia. cbn [firstn]. rewrite app_nil_r.
+        f_equal. lia.
+Qed.
+Lemma shift_runs_spec a : forall rs pos, inc pos rs = true ->
+  inc (pos - a) (shift_runs a rs) = true /\ last_end (pos - a) (shift_runs a rs) = last_end pos rs - a
+  /\ expand_runs (pos - a) (shift_runs a rs) = expand_runs pos rs.
+Proof.
+  induction rs as [|[e v] rs IH]; intros pos H; [repeat split|].
+  apply inc_cons in H. destruct H as [H1 H2]. destruct (IH e H2) as (I1 & I2 & I3).
+  cbn [shift_runs map]. fold (shift_runs a rs). repeat split.
+  - apply inc_cons. split; [lia|exact I1].
+  - rewrite !last_end_cons. exact I2.
+  - cbn [expand_runs]. rewrite I3. f_equal. f_equal. lia.
+Qed.
+Theorem slice_rle_spec : forall a b r, wf_rle r = true -> 0 <= a -> a < b -> b <= rle_len r ->
+  wf_rle (slice_rle a b r) = true /\ rle_len (slice_rle a b r) = b - a
+  /\ expand (slice_rle a b r) = slice a b (expand r).
+Proof.
+  intros a b r W Ha Hab Hb. destruct (wf_runs r W) as (A1 & A2 & A3 & _).
+  unfold slice_rle, slice_runs. replace (a <? b) with true by (symmetry; apply Z.ltb_lt; exact Hab).
+  destruct (drop_runs_spec a (runs_of r) 0 A1 Ha ltac:(lia)) as (D1 & D2 & D3).
+  destruct (take_runs_spec b (drop_runs a (runs_of r)) a D1 Hab ltac:(lia)) as (T1 & T2 & T3).
+  destruct (shift_runs_spec a _ a T1) as (S1 & S2 & S3). replace (a - a) with 0 in * by lia.
+  repeat split.
+  - apply wf_of_runs. exact S1.
+  - rewrite rle_len_of_runs, S2, T2. reflexivity.
+  - rewrite expand_of_runs, S3, T3, D3, A3. unfold slice. replace (a - 0) with a by lia. reflexivity.
+Qed.
+(* to_dict entry of one chromosome: xor-decoding of the clipped runs = the slice of the dense genome *)
+Theorem to_dict_entry : forall a b r, wf_rle r = true -> 0 <= a -> a < b -> b <= rle_len r ->
+  to_array (slice_rle a b r) = slice a b (expand r) /\ len (to_array (slice_rle a b r)) = b - a.
+Proof.
+  intros a b r W Ha Hab Hb. destruct (slice_rle_spec a b r W Ha Hab Hb) as (S1 & S2 & S3).
+  rewrite (to_array_expand _ S1). split; [exact S3|]. rewrite expand_length by exact S1. exact S2.
+Qed.
+
+(* ---------- dtype kind of from_bedgraph ---------- *)
+Theorem from_bedgraph_kind_fixed : forall k recs size,
+  recs <> [] -> sorted_disjoint 0 recs = true -> all_le size recs = true ->
+  exists r, from_bedgraph_fixed k recs size = Some (k, r).
+Proof.
+  intros k recs size H1 H2 H3. destruct (from_bedgraph_dense append_kind_fixed k recs size H1 H2 H3) as (r & E & _).
+  exists r. unfold from_bedgraph_fixed. rewrite E. unfold append_kind_fixed. destruct (size =? last_stop recs); reflexivity.
+Qed.
+Theorem from_bedgraph_kind_partial : forall k recs size,
+  recs <> [] -> sorted_disjoint 0 recs = true -> all_le size recs = true ->
+  (size = last_stop recs \/ k <> KB) ->
+  exists r, from_bedgraph_pinned k recs size = Some (k, r).
+Proof.
+  intros k recs size H1 H2 H3 H4. destruct (from_bedgraph_dense append_kind_pinned k recs size H1 H2 H3) as (r & E & _).
+  exists r. unfold from_bedgraph_pinned. rewrite E. destruct H4 as [H4|H4].
+  - rewrite <- H4, Z.eqb_refl. reflexivity.
+  - destruct (size =? last_stop recs); [reflexivity|]. destruct k; try reflexivity. congruence.
+Qed.
+Theorem from_bedgraph_kind_refuted :
+  exists k recs size r, recs <> [] /\ sorted_disjoint 0 recs = true /\ all_le size recs = true
+    /\ from_bedgraph_pinned k recs size = Some (KI, r) /\ k = KB.
+Proof.
+  exists KB, [(0, 1, (1, 0))], 2, ([0; 1; 2], [(1, 0); (0, 0)]).
+  repeat split; try reflexivity. discriminate.
+Qed.
+
+(* ====================================================================================== *)
+(* back-conversion (get_data): the records of one chromosome's runs describe its dense array *)
+(* ====================================================================================== *)
+Definition strip (recs : list (Z * Z * Z * (Z * Z))) : list (Z * Z * (Z * Z)) := map (fun '(_, s, e, v) => (s, e, v)) recs.
+Lemma sorted_disjoint_weaken lo lo' recs : lo' <= lo -> sorted_disjoint lo recs = true -> sorted_disjoint lo' recs = true.
+Proof.
+  intros Hl H. destruct recs as [|[[s e] v] r]; [reflexivity|].
+  apply sorted_disjoint_cons in H. destruct H as (H1 & H2 & H3). cbn [sorted_disjoint]. rewrite H3, andb_true_r.
+  apply andb_true_intro. split; [apply Z.leb_le|apply Z.ltb_lt]; lia.
+Qed.
+Lemma runs_records_describe fill c : forall rs pos, inc pos rs = true ->
+  sorted_disjoint pos (strip (runs_records c pos rs)) = true
+  /\ all_le (last_end pos rs) (strip (runs_records c pos rs)) = true
+  /\ tabulate (cover_at fill (strip (runs_records c pos rs))) pos (last_end pos rs - pos) = expand_runs pos rs.
+Proof.
+  induction rs as [|[e v] rs IH]; intros pos H.
+  - repeat split. unfold last_end. simpl. apply tabulate_nil. lia.
+  - apply inc_cons in H. destruct H as [H1 H2]. destruct (IH e H2) as (I1 & I2 & I3).
+    pose proof (inc_last_end e rs H2) as [HL _]. rewrite last_end_cons.
+    cbn [runs_records strip map]. fold (strip (runs_records c e rs)). repeat split.
+    + cbn [sorted_disjoint]. rewrite I1, andb_true_r. apply andb_true_intro. split; [apply Z.leb_le|apply Z.ltb_lt]; lia.
+    + cbn [all_le]. rewrite I2, andb_true_r. apply Z.leb_le. exact HL.
+    + cbn [expand_runs]. replace (last_end e rs - pos) with ((e - pos) + (last_end e rs - e)) by lia.
+      rewrite tabulate_app by lia. f_equal.
+      * apply tabulate_const. intros p Hp. apply cover_at_head. lia.
+      * replace (pos + (e - pos)) with e by lia. rewrite <- I3. apply tabulate_ext. intros p Hp.
+        apply cover_at_skip. lia.
+Qed.
+(* Boolean arrays: only the True runs are kept, gaps read back as False *)
+Definition true_recs (recs : list (Z * Z * Z * (Z * Z))) := filter (fun '(_, _, _, v) => vtruth v) recs.
+Lemma all_le_true_recs hi recs : all_le hi (strip recs) = true -> all_le hi (strip (true_recs recs)) = true.
+Proof.
+  induction recs as [|[[[c s] e] v] r IH]; intros H; [reflexivity|].
+  cbn [strip map all_le] in H. apply andb_prop in H. destruct H as [H1 H2].
+  cbn [true_recs filter]. fold (true_recs r). destruct (vtruth v).
+  - cbn [strip map all_le]. fold (strip (true_recs r)). rewrite H1. apply IH. exact H2.
+  - apply IH. exact H2.
+Qed.
+Lemma runs_records_describe_bool c : forall rs pos, inc pos rs = true ->
+  (forall e v, In (e, v) rs -> v = vzero \/ v = vone) ->
+  sorted_disjoint pos (strip (true_recs (runs_records c pos rs))) = true
+  /\ all_le (last_end pos rs) (strip (true_recs (runs_records c pos rs))) = true
+  /\ tabulate (cover_at vzero (strip (true_recs (runs_records c pos rs)))) pos (last_end pos rs - pos) = expand_runs pos rs.
+Proof.
+  induction rs as [|[e v] rs IH]; intros pos H Hb.
+  - repeat split. unfold last_end. simpl. apply tabulate_nil. lia.
+  - apply inc_cons in H. destruct H as [H1 H2].
+    destruct (IH e H2) as (I1 & I2 & I3); [intros e' v' Hin; apply (Hb e'); right; exact Hin|].
+    pose proof (inc_last_end e rs H2) as [HL _]. rewrite last_end_cons.
+    cbn [runs_records true_recs filter]. fold (true_recs (runs_records c e rs)).
+    assert (Hsplit : forall f : Z -> Z * Z, tabulate f pos (last_end e rs - pos) = tabulate f pos (e - pos) ++ tabulate f e (last_end e rs - e)).
+    { intros f. replace (last_end e rs - pos) with ((e - pos) + (last_end e rs - e)) by lia.
+      rewrite tabulate_app by lia. replace (pos + (e - pos)) with e by lia. reflexivity. }
+    destruct (Hb e v (or_introl eq_refl)) as [Ev|Ev]; subst v.
+    + (* a False run: dropped, reads back as the fill value *)
+      change (vtruth vzero) with false. cbn iota. repeat split.
+      * apply (sorted_disjoint_weaken e); [lia|exact I1].
+      * exact I2.
+      * rewrite Hsplit. cbn [expand_runs]. f_equal; [|exact I3].
+        apply tabulate_const. intros p Hp. apply (cover_at_before vzero e); [exact I1|lia].
+    + change (vtruth vone) with true. cbn iota. cbn [strip map]. fold (strip (true_recs (runs_records c e rs))). repeat split.
+      * cbn [sorted_disjoint]. rewrite I1, andb_true_r. apply andb_true_intro. split; [apply Z.leb_le|apply Z.ltb_lt]; lia.
+      * cbn [all_le]. rewrite I2, andb_true_r. apply Z.leb_le. exact HL.
+      * rewrite Hsplit. cbn [expand_runs]. f_equal.
+        -- apply tabulate_const. intros p Hp. apply cover_at_head. lia.
+        -- rewrite <- I3. apply tabulate_ext. intros p Hp. apply cover_at_skip. lia.
+Qed.
+
+Theorem get_data_roundtrip : forall c s, wf_rle s = true ->
+  let recs := strip (runs_records c 0 (runs_of s)) in
+  sorted_disjoint 0 recs = true /\ all_le (rle_len s) recs = true
+  /\ dense_of vzero recs (rle_len s) = expand s.
+Proof.
+  intros c s W. destruct (wf_runs s W) as (A1 & A2 & A3 & _).
+  destruct (runs_records_describe vzero c (runs_of s) 0 A1) as (R1 & R2 & R3).
+  rewrite A2 in *. rewrite Z.sub_0_r in R3. cbv zeta. repeat split; try assumption.
+  unfold dense_of. rewrite R3, A3. reflexivity.
+Qed.
+Theorem get_data_roundtrip_bool : forall c s, wf_rle s = true ->
+  (forall v, In v (snd s) -> v = vzero \/ v = vone) ->
+  let recs := strip (true_recs (runs_records c 0 (runs_of s))) in
+  sorted_disjoint 0 recs = true /\ all_le (rle_len s) recs = true
+  /\ dense_of vzero recs (rle_len s) = expand s.
+Proof.
+  intros c s W Hb. destruct (wf_runs s W) as (A1 & A2 & A3 & _).
+  destruct (runs_records_describe_bool c (runs_of s) 0 A1) as (R1 & R2 & R3).
+  { intros e v Hin. apply Hb. apply (In_runs_of e). exact Hin. }
+  rewrite A2 in *. rewrite Z.sub_0_r in R3. cbv zeta. repeat split; try assumption.
+  unfold dense_of. rewrite R3, A3. reflexivity.
+Qed.
+
+(* ====================================================================================== *)
+(* to_dict over all chromosomes: offsets partition the genome-wide array                    *)
+(* ====================================================================================== *)
+Lemma nth_cumsum : forall l acc (c : nat), (c <= length l)%nat ->
+  nth c (acc :: cumsum_from acc l) 0 = acc + sumZ (firstn c l).
+Proof.
+  induction l as [|x l IH]; intros acc c Hc.
+  - destruct c; [simpl; lia|simpl in Hc; lia].
+  - destruct c as [|c]; [simpl; lia|].
+    change (nth (S c) (acc :: cumsum_from acc (x :: l)) 0) with (nth c ((acc + x) :: cumsum_from (acc + x) l) 0).
+    rewrite IH by (simpl in Hc; lia). cbn [firstn]. unfold sumZ. cbn [fold_right]. lia.
+Qed.
+Lemma offset_prefix pre n rest : nthZ (offsets (pre ++ n :: rest)) (len pre) = sumZ pre.
+Proof.
+  unfold nthZ, offsets, insert0, cumsum, len. rewrite Nat2Z.id.
+  rewrite nth_cumsum by (rewrite app_length; lia).
+  rewrite firstn_app, Nat.sub_diag, firstn_all. cbn [firstn]. rewrite app_nil_r. lia.
+Qed.
+Lemma sumZ_cons x l : sumZ (x :: l) = x + sumZ l.
+Proof. reflexivity. Qed.
+Lemma sumZ_nil : sumZ [] = 0.
+Proof. reflexivity. Qed.
+Lemma sumZ_app a b : sumZ (a ++ b) = sumZ a + sumZ b.
+Proof. induction a as [|x a IH]; [reflexivity|]. cbn [app]. unfold sumZ in *. cbn [fold_right]. rewrite IH. lia. Qed.
+Lemma slice_split {A} a b c (l : list A) : 0 <= a -> a <= b -> b <= c -> slice a b l ++ slice b c l = slice a c l.
+Proof.
+  intros Ha Hab Hbc. unfold slice.
+  replace (Z.to_nat b) with (Z.to_nat (b - a) + Z.to_nat a)%nat by lia. rewrite <- skipn_skipn'.
+  replace (Z.to_nat (c - a)) with (Z.to_nat (b - a) + Z.to_nat (c - b))%nat by lia.
+  generalize (skipn (Z.to_nat a) l). intros X. generalize (Z.to_nat (b - a)). intros n. generalize (Z.to_nat (c - b)). intros m.
+  revert X. induction n as [|n IH]; intros X; [reflexivity|].
+  destruct X as [|x X]; [simpl; rewrite firstn_nil; reflexivity|]. cbn [firstn skipn plus app]. f_equal. apply IH.
+Qed.
+Fixpoint all_pos (l : list Z) : bool := match l with [] => true | x :: r => (0 <? x) && all_pos r end.
+
+Lemma to_dict_from : forall (r : list Z * list (Z * Z)) rest pre sizes,
+  wf_rle r = true -> sizes = pre ++ rest -> all_pos rest = true -> sumZ sizes <= rle_len r -> 0 <= sumZ pre ->
+  let entries := map to_array
+        (map (fun '(c, n) => slice_rle (nthZ (offsets sizes) c) (nthZ (offsets sizes) c + n) r)
+             (combine (arange_from (len pre) (length rest)) rest)) in
+  concat entries = slice (sumZ pre) (sumZ pre + sumZ rest) (expand r) /\ map len entries = rest.
+Proof.
+  intros r. induction rest as [|n rest IH]; intros pre sizes W Es Hp Ht H0; cbv zeta.
+  - cbn [length arange_from combine map concat]. split; [|reflexivity].
+    rewrite sumZ_nil, slice_empty by lia. reflexivity.
+  - cbn [all_pos] in Hp. apply andb_prop in Hp. destruct Hp as [Hn Hp]. apply Z.ltb_lt in Hn.
+    cbn [length arange_from combine map concat].
+    assert (Eo : nthZ (offsets sizes) (len pre) = sumZ pre) by (rewrite Es; apply offset_prefix).
+    rewrite Eo.
+    assert (Hrest : 0 <= sumZ rest).
+    { clear -Hp. induction rest as [|x rest IH]; [rewrite sumZ_nil; lia|].
+      cbn [all_pos] in Hp. apply andb_prop in Hp. destruct Hp as [Hx Hp]. apply Z.ltb_lt in Hx.
+      specialize (IH Hp). rewrite sumZ_cons. lia. }
+    assert (Hsum : sumZ sizes = sumZ pre + (n + sumZ rest)).
+    { rewrite Es, sumZ_app, sumZ_cons. reflexivity. }
+    destruct (to_dict_entry (sumZ pre) (sumZ pre + n) r W H0 ltac:(lia) ltac:(lia)) as [E1 E2].
+    specialize (IH (pre ++ [n]) sizes W ltac:(rewrite Es, <- app_assoc; reflexivity) Hp Ht).
+    rewrite sumZ_app, sumZ_cons, sumZ_nil in IH.
+    specialize (IH ltac:(lia)). cbv zeta in IH.
+    replace (len (pre ++ [n])) with (len pre + 1) in IH by (rewrite len_app; reflexivity).
+    destruct IH as [I1 I2]. rewrite I1, I2, E2, E1. split.
+    + rewrite sumZ_cons.
+      replace (sumZ pre + (n + 0) + sumZ rest) with (sumZ pre + (n + sumZ rest)) by lia.
+      replace (sumZ pre + (n + 0)) with (sumZ pre + n) by lia.
+      apply slice_split; lia.
+    + f_equal. lia.
+Qed.
+
+Theorem to_dict_concat : forall sizes r,
+  wf_rle r = true -> all_pos sizes = true -> rle_len r = total_size sizes ->
+  concat (model_to_dict sizes r) = expand r /\ map len (model_to_dict sizes r) = sizes.
+Proof.
+  intros sizes r W Hp Ht.
+  destruct (to_dict_from r sizes [] sizes W eq_refl Hp ltac:(unfold total_size in Ht; lia) ltac:(rewrite sumZ_nil; lia)) as [E1 E2].
+  unfold model_to_dict, chrom_slices, per_chrom, arange.
+  replace (Z.to_nat (len sizes)) with (length sizes) by (unfold len; lia).
+  change (len (@nil Z)) with 0 in *. split; [|exact E2].
+  rewrite E1. rewrite sumZ_nil.
+  unfold total_size in Ht. rewrite Z.add_0_l, <- Ht, <- (expand_length r W). apply slice_full. lia.
+Qed.
+
+(* ====================================================================================== *)
+(* T3: from_intervals (scalar value) expands to value inside the intervals, default outside  *)
+(* ====================================================================================== *)
+Ltac Zify.zify_post_hook ::= Z.to_euclidean_division_equations.
+
+(* intervals strictly after pos, each non-empty, strictly separated *)
+Fixpoint gaps (pos : Z) (ivs : list (Z * Z)) : bool :=
+  match ivs with [] => true | (s, e) :: r => (pos <? s) && (s <? e) && gaps e r end.
+Definition iv_recs (value : Z * Z) (ivs : list (Z * Z)) : list (Z * Z * (Z * Z)) := map (fun '(s, e) => (s, e, value)) ivs.
+Definition ends_last (pos : Z) (ivs : list (Z * Z)) : Z := last (map snd ivs) pos.
+
+Lemma gaps_cons pos s e r : gaps pos ((s, e) :: r) = true -> pos < s /\ s < e /\ gaps e r = true.
+Proof.
+  cbn [gaps]. intros H. apply andb_prop in H. destruct H as [H H3]. apply andb_prop in H. destruct H as [H1 H2].
+  apply Z.ltb_lt in H1. apply Z.ltb_lt in H2. auto.
+Qed.
+Lemma gaps_sorted value : forall ivs pos, gaps pos ivs = true -> sorted_disjoint pos (iv_recs value ivs) = true.
+Proof.
+  induction ivs as [|[s e] r IH]; intros pos H; [reflexivity|].
+  apply gaps_cons in H. destruct H as (H1 & H2 & H3). cbn [iv_recs map sorted_disjoint]. fold (iv_recs value r).
+  rewrite (IH e H3), andb_true_r. apply andb_true_intro. split; [apply Z.leb_le|apply Z.ltb_lt]; lia.
+Qed.
+Lemma gaps_ends_last : forall ivs pos, gaps pos ivs = true -> pos <= ends_last pos ivs.
+Proof.
+  induction ivs as [|[s e] r IH]; intros pos H; [unfold ends_last; simpl; lia|].
+  apply gaps_cons in H. destruct H as (H1 & H2 & H3). unfold ends_last in *. cbn [map snd]. rewrite last_cons.
+  specialize (IH e H3). lia.
+Qed.
+Lemma ends_last_cons pos s e r : ends_last pos ((s, e) :: r) = ends_last e r.
+Proof. unfold ends_last. cbn [map snd]. apply last_cons. Qed.
+Lemma interleave2_cons {A} (x y : A) a b : interleave2 (x :: a) (y :: b) = x :: y :: interleave2 a b.
+Proof. reflexivity. Qed.
+
+Lemma from_intervals_inc : forall ivs pos post, gaps pos ivs = true ->
+  increasing_from pos (interleave2 (map fst ivs) (map snd ivs) ++ post) = increasing_from (ends_last pos ivs) post.
+Proof.
+  induction ivs as [|[s e] r IH]; intros pos post H; [reflexivity|].
+  apply gaps_cons in H. destruct H as (H1 & H2 & H3). cbn [map fst snd]. rewrite interleave2_cons.
+  cbn [app increasing_from]. rewrite (IH e post H3), ends_last_cons.
+  replace (pos <? s) with true by (symmetry; apply Z.ltb_lt; lia).
+  replace (s <? e) with true by (symmetry; apply Z.ltb_lt; lia). reflexivity.
+Qed.
+
+Lemma from_intervals_expand d value : forall ivs pos post (n : nat), gaps pos ivs = true -> (length ivs <= n)%nat ->
+  expand_from pos (interleave2 (map fst ivs) (map snd ivs) ++ post) (alternate n d value)
+  = tabulate (cover_at d (iv_recs value ivs)) pos (ends_last pos ivs - pos)
+    ++ expand_from (ends_last pos ivs) post (alternate (n - length ivs) d value).
+Proof.
+  induction ivs as [|[s e] r IH]; intros pos post n H Hn.
+  - unfold ends_last. cbn [map interleave2 app last length]. rewrite Nat.sub_0_r.
+    rewrite tabulate_nil by lia. reflexivity.
+  - pose proof (gaps_sorted value _ _ H) as Hs.
+    apply gaps_cons in H. destruct H as (H1 & H2 & H3).
+    destruct n as [|n]; [simpl in Hn; lia|]. simpl length in Hn.
+    cbn [map fst snd]. rewrite interleave2_cons. cbn [app alternate expand_from].
+    rewrite (IH e post n H3 ltac:(lia)). rewrite ends_last_cons.
+    pose proof (gaps_ends_last r e H3) as HL.
+    replace (S n - length ((s, e) :: r))%nat with (n - length r)%nat by (simpl length; lia).
+    rewrite !app_assoc. f_equal.
+    replace (ends_last e r - pos) with ((s - pos) + ((e - s) + (ends_last e r - e))) by lia.
+    rewrite tabulate_app by lia. rewrite tabulate_app by lia.
+    replace (pos + (s - pos)) with s by lia. replace (s + (e - s)) with e by lia.
+    rewrite <- !app_assoc. f_equal; [|f_equal].
+    + symmetry. apply tabulate_const. intros p Hp.
+      apply (cover_at_before d s); [|lia].
+      cbn [iv_recs map]. cbn [iv_recs map] in Hs.
+      apply sorted_disjoint_cons in Hs. destruct Hs as (_ & _ & Hs3).
+      cbn [sorted_disjoint]. rewrite Hs3, andb_true_r. apply andb_true_intro. split; [apply Z.leb_le|apply Z.ltb_lt]; lia.
+    + symmetry. apply tabulate_const. intros p Hp. cbn [iv_recs map]. apply cover_at_head. lia.
+    + apply tabulate_ext. intros p Hp. cbn [iv_recs map]. symmetry. apply cover_at_skip. lia.
+Qed.
+
+Lemma expand_from_firstn : forall ev pos vs (m : nat), (length ev <= m)%nat ->
+  expand_from pos ev (firstn m vs) = expand_from pos ev vs.
+Proof.
+  induction ev as [|e ev IH]; intros pos vs m Hm; [destruct (firstn m vs); reflexivity|].
+  destruct m as [|m]; [simpl in Hm; lia|]. destruct vs as [|v vs]; [reflexivity|].
+  cbn [firstn expand_from]. f_equal. apply IH. simpl in Hm. lia.
+Qed.
+Lemma alternate_length {A} n (x y : A) : length (alternate n x y) = (2 * n)%nat.
+Proof. induction n as [|n IH]; [reflexivity|]. cbn [alternate length]. rewrite IH. lia. Qed.
+Lemma interleave2_length : forall (ivs : list (Z * Z)), length (interleave2 (map fst ivs) (map snd ivs)) = (2 * length ivs)%nat.
+Proof. induction ivs as [|[s e] r IH]; [reflexivity|]. cbn [map fst snd]. rewrite interleave2_cons. cbn [length]. rewrite IH. lia. Qed.
+
+(* the two assertions at the top of from_intervals *)
+Lemma from_intervals_asserts : forall ivs pos, gaps pos ivs = true ->
+  all_true (map2 Z.ltb (map fst ivs) (map snd ivs)) = true
+  /\ all_true (map2 Z.leb (removelast (map snd ivs)) (tl (map fst ivs))) = true.
+Proof.
+  induction ivs as [|[s e] r IH]; intros pos H; [split; reflexivity|].
+  apply gaps_cons in H. destruct H as (H1 & H2 & H3). destruct (IH e H3) as [I1 I2]. cbn [map fst snd]. split.
+  - cbn [map2 all_true]. rewrite I1, andb_true_r. apply Z.ltb_lt. exact H2.
+  - cbn [tl]. destruct r as [|[s2 e2] r']; [reflexivity|].
+    apply gaps_cons in H3. destruct H3 as (G1 & _ & _).
+    cbn [map fst snd] in *. rewrite removelast_cons. cbn [map2 all_true]. cbn [tl] in I2. rewrite I2, andb_true_r.
+    apply Z.leb_le. lia.
+Qed.
+Lemma last_default_irrel {A} (l : list A) d d' : l <> [] -> last l d = last l d'.
+Proof.
+  induction l as [|x l IH]; intros H; [congruence|]. destruct l as [|y l']; [reflexivity|].
+  change (last (x :: y :: l') d) with (last (y :: l') d). change (last (x :: y :: l') d') with (last (y :: l') d').
+  apply IH. discriminate.
+Qed.
+
+Lemma last_interleave : forall r e post, gaps e r = true ->
+  last (interleave2 (map fst r) (map snd r) ++ post) e = last (ends_last e r :: post) 0.
+Proof.
+  induction r as [|[s2 e2] r IH]; intros e post H3.
+  - unfold ends_last. cbn [map interleave2 app]. change (last (@nil Z) e) with e. rewrite last_cons. reflexivity.
+  - apply gaps_cons in H3. destruct H3 as (_ & _ & G). cbn [map fst snd]. rewrite interleave2_cons. cbn [app].
+    rewrite !last_cons. rewrite (IH e2 post G). rewrite ends_last_cons, last_cons. reflexivity.
+Qed.
+
+Lemma tabulate_split3 {A} (f : Z -> A) a b c d : a <= b -> b <= c -> c <= d ->
+  tabulate f a (d - a) = tabulate f a (b - a) ++ tabulate f b (c - b) ++ tabulate f c (d - c).
+Proof.
+  intros H1 H2 H3. replace (d - a) with ((b - a) + ((c - b) + (d - c))) by lia.
+  rewrite tabulate_app by lia. rewrite tabulate_app by lia.
+  replace (a + (b - a)) with b by lia. replace (b + (c - b)) with c by lia. reflexivity.
+Qed.
+
+Lemma last_stop_iv_recs value : forall ivs pos, ivs <> [] -> last_stop (iv_recs value ivs) = ends_last pos ivs.
+Proof.
+  induction ivs as [|[s e] r IH]; intros pos H; [congruence|].
+  destruct r as [|[s2 e2] r']; [reflexivity|].
+  cbn [iv_recs map]. rewrite last_stop_cons, ends_last_cons. apply (IH e). discriminate.
+Qed.
+
+(* first interval may start at 0 (no prefix event) or later *)
+Definition ivs_ok (ivs : list (Z * Z)) : Prop :=
+  match ivs with [] => True | (s, e) :: r => 0 <= s /\ s < e /\ gaps e r = true end.
+
+Theorem from_intervals_dense : forall ivs size k value default,
+  0 < size -> ivs_ok ivs -> ends_last 0 ivs <= size ->
+  exists r, from_intervals_scalar_gen clean_pinned (map fst ivs) (map snd ivs) size k value default = Some (k, r)
+    /\ wf_rle r = true /\ rle_len r = size
+    /\ expand r = dense_of (cast_to k default) (iv_recs value ivs) size.
+Proof.
+  intros ivs size k value default Hsize Hok Hend.
+  unfold from_intervals_scalar_gen, clean_pinned, from_intervals_events. set (d := cast_to k default).
+  (* the assertions hold *)
+  assert (Hass : all_true (map2 Z.ltb (map fst ivs) (map snd ivs)) = true
+                 /\ all_true (map2 Z.leb (removelast (map snd ivs)) (tl (map fst ivs))) = true).
+  { destruct ivs as [|[s e] r]; [split; reflexivity|]. destruct Hok as (H1 & H2 & H3).
+    apply (from_intervals_asserts ((s, e) :: r) (s - 1)). cbn [gaps]. rewrite H3, andb_true_r.
+    apply andb_true_intro. split; apply Z.ltb_lt; lia. }
+  destruct Hass as [A1 A2]. rewrite A1, A2. cbn [andb negb].
+  (* postfix *)
+  set (post := if match map snd ivs with [] => true | _ :: _ => negb (last (map snd ivs) 0 =? size) end then [size] else []).
+  assert (Hpost : increasing_from (ends_last 0 ivs) post = true /\ last (ends_last 0 ivs :: post) 0 = size
+                  /\ forall n, (1 <= n)%nat -> expand_from (ends_last 0 ivs) post (alternate n d value)
+                                = repeat d (Z.to_nat (size - ends_last 0 ivs))).
+  { unfold post, ends_last. destruct (map snd ivs) as [|e0 es] eqn:Ee.
+    - cbn [last increasing_from]. repeat split; [rewrite andb_true_r; apply Z.ltb_lt; lia|].
+      intros n Hn. destruct n; [lia|]. cbn [alternate expand_from]. apply app_nil_r.
+    - unfold ends_last in Hend. rewrite Ee in Hend. destruct (Z.eqb_spec (last (e0 :: es) 0) size) as [E|E]; cbn [negb].
+      + repeat split; [simpl; exact E|]. intros n Hn. destruct n; [lia|]. cbn [alternate expand_from].
+        replace (Z.to_nat (size - last (e0 :: es) 0)) with O by lia. reflexivity.
+      + cbn [increasing_from]. repeat split; [rewrite andb_true_r; apply Z.ltb_lt; lia|].
+        intros n Hn. destruct n; [lia|]. cbn [alternate expand_from]. apply app_nil_r. }
+  destruct Hpost as (P1 & P2 & P3).
+  assert (Hpl : (length post <= 1)%nat) by (unfold post; destruct (match map snd ivs with [] => true | _ :: _ => _ end); simpl; lia).
+  destruct ivs as [|[s e] r].
+  - (* no interval: [0, size], one default run *)
+    cbn [map app interleave2]. fold post. unfold ends_last in *. cbn [map last] in *.
+    set (events := 0 :: post) in *.
+    assert (W : wf_rle (events, firstn (Z.to_nat (len events - 1)) (alternate (Z.to_nat (len events / 2 + 1)) d value)) = true).
+    { unfold wf_rle. cbn [fst snd]. unfold events. rewrite Z.eqb_refl, P1. cbn [andb].
+      apply Z.eqb_eq. unfold len. rewrite firstn_length, alternate_length. simpl length. lia. }
+    eexists. split; [rewrite mk_rle_wf; [reflexivity|exact W]|]. split; [exact W|]. split.
+    + unfold rle_len. cbn [fst]. exact P2.
+    + unfold expand. cbn [fst snd]. unfold events. rewrite expand_from_firstn by (unfold len; simpl length; lia).
+      rewrite P3 by (unfold len; simpl length; lia).
+      unfold dense_of. symmetry. replace (size - 0) with size by lia. apply tabulate_const. intros p Hp. reflexivity.
+  - destruct Hok as (H1 & H2 & H3). cbn [map fst snd] in *.
+    pose proof (gaps_ends_last r e H3) as HL. rewrite ends_last_cons in *.
+    assert (Elen : length (interleave2 (s :: map fst r) (e :: map snd r)) = (2 * length r + 2)%nat).
+    { rewrite interleave2_cons. cbn [length]. rewrite interleave2_length. lia. }
+    destruct (Z.eqb_spec s 0) as [E0|E0]; cbn [negb app].
+    + (* first interval starts at 0: no prefix event, first value dropped *)
+      subst s. fold post. rewrite interleave2_cons. cbn [app].
+      set (events := 0 :: e :: interleave2 (map fst r) (map snd r) ++ post) in *.
+      assert (Hev : length events = (2 * length r + 2 + length post)%nat).
+      { unfold events. cbn [length]. rewrite app_length, interleave2_length. lia. }
+      set (n := Z.to_nat (len events / 2 + 1)).
+      assert (Hn : (length r + 1 <= n)%nat /\ (length events <= 2 * n - 1)%nat).
+      { unfold n, len. rewrite Hev. split; lia. }
+      destruct n as [|n]; [lia|]. cbn [alternate tl].
+      assert (Winc : increasing_from 0 (e :: interleave2 (map fst r) (map snd r) ++ post) = true).
+      { cbn [increasing_from]. rewrite (from_intervals_inc r e post H3), P1, andb_true_r. apply Z.ltb_lt. lia. }
+      assert (W : wf_rle (events, firstn (Z.to_nat (len events - 1)) (value :: alternate n d value)) = true).
+      { unfold wf_rle. cbn [fst snd]. unfold events at 1. rewrite Z.eqb_refl, Winc. cbn [andb].
+        apply Z.eqb_eq. unfold len. rewrite firstn_length. cbn [length]. rewrite alternate_length.
+        assert (Hev2 : length events = S (S (length (interleave2 (map fst r) (map snd r) ++ post)))) by reflexivity.
+        lia. }
+      eexists. split; [rewrite mk_rle_wf; [reflexivity|exact W]|]. split; [exact W|]. split.
+      * unfold rle_len. cbn [fst]. unfold events. rewrite last_cons, last_cons.
+        rewrite (last_interleave r e post H3). exact P2.
+      * unfold expand. cbn [fst snd]. unfold events.
+        assert (Hev2 : length events = S (S (length (interleave2 (map fst r) (map snd r) ++ post)))) by reflexivity.
+        rewrite expand_from_firstn by (unfold len; cbn [length]; lia).
+        cbn [expand_from]. rewrite (from_intervals_expand d value r e post n H3 ltac:(lia)).
+        rewrite P3 by lia.
+        pose proof (gaps_sorted value r e H3) as Hs.
+        assert (Hs0 : sorted_disjoint 0 (iv_recs value ((0, e) :: r)) = true).
+        { cbn [iv_recs map sorted_disjoint]. fold (iv_recs value r). rewrite Hs, andb_true_r.
+          apply andb_true_intro. split; [apply Z.leb_le|apply Z.ltb_lt]; lia. }
+        unfold dense_of.
+        replace (tabulate (cover_at d (iv_recs value ((0, e) :: r))) 0 size)
+          with (tabulate (cover_at d (iv_recs value ((0, e) :: r))) 0 (size - 0)) by (f_equal; lia).
+        rewrite (tabulate_split3 _ 0 e (ends_last e r) size) by lia.
+        f_equal; [|f_equal].
+        -- symmetry. apply tabulate_const. intros p Hp. cbn [iv_recs map]. apply cover_at_head. lia.
+        -- apply tabulate_ext. intros p Hp. cbn [iv_recs map]. symmetry. apply cover_at_skip. lia.
+        -- symmetry. apply tabulate_const. intros p Hp.
+           apply (cover_at_after d 0); [exact Hs0| |discriminate].
+           rewrite (last_stop_iv_recs value _ 0) by discriminate. rewrite ends_last_cons. lia.
+    + (* prefix event 0, default run first *)
+      fold post. rewrite interleave2_cons. cbn [app].
+      set (events := 0 :: s :: e :: interleave2 (map fst r) (map snd r) ++ post) in *.
+      assert (Hev : length events = (2 * length r + 3 + length post)%nat).
+      { unfold events. cbn [length]. rewrite app_length, interleave2_length. lia. }
+      set (n := Z.to_nat (len events / 2 + 1)).
+      assert (Hn : (length r + 2 <= n)%nat /\ (length events <= 2 * n)%nat).
+      { unfold n, len. rewrite Hev. split; lia. }
+      assert (G0 : gaps 0 ((s, e) :: r) = true).
+      { cbn [gaps]. rewrite H3, andb_true_r. apply andb_true_intro. split; apply Z.ltb_lt; lia. }
+      assert (Winc : increasing_from 0 (s :: e :: interleave2 (map fst r) (map snd r) ++ post) = true).
+      { pose proof (from_intervals_inc ((s, e) :: r) 0 post G0) as X. cbn [map fst snd] in X.
+        rewrite interleave2_cons in X. cbn [app] in X. rewrite X, ends_last_cons. exact P1. }
+      assert (W : wf_rle (events, firstn (Z.to_nat (len events - 1)) (alternate n d value)) = true).
+      { unfold wf_rle. cbn [fst snd]. unfold events at 1. rewrite Z.eqb_refl, Winc. cbn [andb].
+        apply Z.eqb_eq. unfold len. rewrite firstn_length, alternate_length.
+        assert (Hev2 : length events = S (S (S (length (interleave2 (map fst r) (map snd r) ++ post))))) by reflexivity.
+        cbn [length]. lia. }
+      eexists. split; [rewrite mk_rle_wf; [reflexivity|exact W]|]. split; [exact W|]. split.
+      * unfold rle_len. cbn [fst]. unfold events. rewrite !last_cons.
+        rewrite (last_interleave r e post H3). exact P2.
+      * unfold expand. cbn [fst snd]. unfold events.
+        assert (Hev2 : length events = S (S (S (length (interleave2 (map fst r) (map snd r) ++ post))))) by reflexivity.
+        rewrite expand_from_firstn by (unfold len; cbn [length]; lia).
+        pose proof (from_intervals_expand d value ((s, e) :: r) 0 post n G0 ltac:(simpl length; lia)) as X.
+        cbn [map fst snd] in X. rewrite interleave2_cons in X. cbn [app] in X. rewrite X. clear X.
+        rewrite ends_last_cons. rewrite P3 by (simpl length; lia).
+        pose proof (gaps_sorted value _ 0 G0) as Hs0.
+        unfold dense_of.
+        replace (tabulate (cover_at d (iv_recs value ((s, e) :: r))) 0 size)
+          with (tabulate (cover_at d (iv_recs value ((s, e) :: r))) 0 (size - 0)) by (f_equal; lia).
+        rewrite (tabulate_split3 _ 0 0 (ends_last e r) size) by lia.
+        rewrite (tabulate_nil _ 0 (0 - 0)) by lia. cbn [app]. f_equal.
+        symmetry. apply tabulate_const. intros p Hp.
+        apply (cover_at_after d 0); [apply (sorted_disjoint_weaken 0); [lia|exact Hs0]| |discriminate].
+        rewrite (last_stop_iv_recs value _ 0) by discriminate. rewrite ends_last_cons. lia.
+Qed.
+
+(* ---------- what the pinned from_intervals does not do ---------- *)
+Theorem from_intervals_touching_refuted :
+  exists starts ends size,
+    all_true (map2 Z.ltb starts ends) = true /\ all_true (map2 Z.leb (removelast ends) (tl starts)) = true
+    /\ from_intervals_scalar_gen clean_pinned starts ends size KB vone vzero = None
+    /\ exists r, from_intervals_scalar_gen clean_fixed starts ends size KB vone vzero = Some (KB, r)
+                 /\ expand r = dense_of vzero [(1, 3, vone); (3, 5, vone)] size.
+Proof.
+  exists [1; 3], [3; 5], 6. repeat split. eexists. split; vm_compute; reflexivity.
+Qed.
+Theorem from_intervals_array_refuted :
+  forall starts ends size k values default, from_intervals_array_pinned starts ends size k values default = None.
+Proof. reflexivity. Qed.
